@@ -191,6 +191,7 @@ func loadProgram(hs *harnessSet) (*Program, error) {
 	prog, spkgs := ssautil.AllPackages(pkgs, ssa.InstantiateGenerics)
 	prog.Build()
 	p := &Program{Prog: prog, infos: map[*ssa.Function]*fnInfo{}, Fset: prog.Fset}
+	packages.Visit(pkgs, nil, func(lp *packages.Package) { p.Loaded = append(p.Loaded, lp) })
 	for _, sp := range spkgs {
 		if sp != nil {
 			p.Pkgs = append(p.Pkgs, sp)
